@@ -53,6 +53,7 @@ type g2lUnit struct {
 	externFue map[string]bool   // extern takes fuel
 	structNames []string        // struct types of the package to emit
 	noEq      map[string]bool   // structs without DecidableEq (function fields)
+	inout     map[string]string // function -> name of the map/pointer parameter (or receiver) it mutates; returned as an extra last result
 	effFns    map[string]string // function -> Lean type of one effect-log entry (its result becomes R × List entry)
 	ifaceStructs map[string]string // multi-method interface -> Lean structure text (emitted verbatim); method call = field application
 	effects   map[string]string // interface method with no result -> treated as an effect appended to `effLog` (value = Lean type of one log entry)
@@ -156,6 +157,10 @@ type g2lFn struct {
 	want     types.Type // expected type of the expression being compiled (for nil)
 	objNames map[types.Object]string
 	usesEff  bool
+	inoutName string            // Lean name of the in-out parameter of this function
+	inoutIdx  int               // its position among the parameters (receiver first)
+	endK      kont
+	labels    map[string]int    // top-level labels of the body -> statement index
 	effType  string
 	usedName map[string]bool
 	structs  map[string]*types.Named
@@ -278,6 +283,9 @@ func isErrorType(t types.Type) bool {
 }
 
 func (f *g2lFn) leanType(t types.Type, at ast.Node) string {
+	if isBytesBuffer(t) {
+		return "Bytes"
+	}
 	if n, ok := t.(*types.Named); ok {
 		name := n.Obj().Name()
 		if v, ok := f.u.absTypes[name]; ok {
@@ -345,6 +353,9 @@ func (f *g2lFn) structType(name string) string {
 }
 
 func (f *g2lFn) zero(t types.Type, at ast.Node) string {
+	if isBytesBuffer(t) {
+		return "([] : Bytes)"
+	}
 	if n, ok := t.(*types.Named); ok {
 		if v, ok := f.u.absTypes[n.Obj().Name()]; ok {
 			return "(default : " + v + ")"
@@ -874,3 +885,11 @@ var g2lErrorIface = types.Universe.Lookup("error").Type().Underlying().(*types.I
 func g2lImplementsError(t types.Type) bool { return types.Implements(t, g2lErrorIface) }
 
 var g2lErrorType = types.Universe.Lookup("error").Type()
+
+func isBytesBuffer(t types.Type) bool {
+	if p, ok := t.(*types.Pointer); ok {
+		t = p.Elem()
+	}
+	n, ok := t.(*types.Named)
+	return ok && n.Obj().Name() == "Buffer" && n.Obj().Pkg() != nil && n.Obj().Pkg().Path() == "bytes"
+}
